@@ -148,10 +148,159 @@ def pty_resize_leg(run):
     return 1
 
 
+LOSSY_ALPHA = [0x61, 0x80, 0xbf, 0xc0, 0xc1, 0xc2, 0xdf, 0xe0, 0xa0, 0x9f, 0xed, 0xee, 0xef, 0xf0, 0x90, 0x8f, 0xf4, 0xf5, 0xff, 0xe1, 0xf1]
+RAW_PIECES = [b"warning: x", b"\xff", b"\xe2\x82", b"\xe2\x82\xac", b"\xf0\x9f\x98", b"\xf0\x9f\x98\x80", b"\xc0\xaf", b"\xed\xa0\x80",
+              b"\xf4\x90\x80\x80", b" ", b"ok", "é".encode(), "日本語".encode(), b"\x1b[1m", b"\x80", b"a" * 30, b"\t"]
+TEXT_PIECES = ["cc -c ", "foo.c", " -o ", "é", "€", "😀", "日本", "x" * 25, " ", "LINK prog", "/very/long/path/" * 3, "a"]
+
+
+def fancy_text(rng, raw=False):
+    if raw:
+        return b"".join(rng.choice(RAW_PIECES) for _ in range(rng.randint(0, 8)))
+    return "".join(rng.choice(TEXT_PIECES) for _ in range(rng.randint(1, 7))).encode()
+
+
+def gen_fancy(rng, malformed=False):
+    """one scenario for the display state: (line, meta).  Protocol-respecting unless `malformed`."""
+    hx = lambda b: hexs(b)
+    ops, shown, clock, nid = [], [], 0, 1
+    meta = {"valid_text": True, "prints": [], "malformed": malformed}
+    descs = {}
+    wide = rng.random() < 0.4                      # often more than eight commands on display
+    raw_desc = rng.random() < 0.15
+    for _ in range(rng.randint(4, 45)):
+        r = rng.random()
+        clock += rng.choice([0, 1, 30, 400, 999, 1000, 1001, 2500, 60000, 3600000])
+        if r < (0.45 if wide and len(shown) < 12 else 0.2) or not shown:
+            d = rng.choice([None, b"", fancy_text(rng, raw_desc), fancy_text(rng)])
+            c = fancy_text(rng, raw_desc) if rng.random() < 0.9 else b""
+            if raw_desc:
+                meta["valid_text"] = meta["valid_text"] and utf8_ok(d or b"") and utf8_ok(c)
+            start = clock if rng.random() < 0.9 else clock + rng.choice([1, 5000])      # a start "after" the frame's clock saturates
+            descs[nid] = (d, c)
+            ops.append("S %d %d %s %s" % (nid, start, "~" if d is None else hx(d), hx(c)))
+            shown.append(nid)
+            nid += 1 if rng.random() < 0.97 else 0      # occasionally the same id twice on display
+        elif r < 0.45:
+            i = rng.choice(shown)
+            ops.append("O %d %s" % (i, hx(fancy_text(rng, raw=rng.random() < 0.6))))
+        elif r < 0.6:
+            i = rng.choice(shown)
+            d, c = descs[i]
+            out = rng.choice([b"", b"out\n", b"no newline", fancy_text(rng, True) + b"\n", b"x" * 300])
+            ops.append("F %d %s %s %d %d %s" % (i, "~" if d is None else hx(d), hx(c), rng.random() < 0.2, rng.choice([0, 0, 0, 1, 2]), hx(out)))
+            shown.remove(i)
+        elif r < 0.7:
+            ops.append("U " + " ".join(str(rng.choice([0, 1, 2, 7, 100, 12345])) for _ in range(6)))
+        elif r < 0.73:
+            ops.append("L " + hx(fancy_text(rng)))
+        else:
+            cols = rng.choice([10, 11, 12, 13, 14, 15, 20, 40, 79, 80, 81, 120, 300])
+            ops.append("P %d %d" % (clock, cols))
+            meta["prints"].append({"cols": cols, "shown": len(shown)})
+    if malformed:
+        k = rng.choice(["O", "F", "S", "P"])
+        if k == "O":
+            ops.append("O 9999 %s" % hx(b"x"))
+        elif k == "F":
+            ops.append("F 9999 ~ %s 0 0 -" % hx(b"c"))
+        elif k == "S":
+            ops.append("S 9998 0 %s ~" % rng.choice(["~", "-"]))
+        else:
+            ops.append("S 9997 0 ~ %s;O 9997 %s;P %d %d" % (hx(b"c"), hx(b"l"), clock, rng.choice([0, 1])))
+        meta["bad_op"] = k
+    return "v=%d %s" % (rng.random() < 0.1, ";".join(ops)), meta
+
+
+STATUS_RE = re.compile(rb"\[([=\- ]*)\] \d+/\d+ done, (\d+ failed, )?\d+/\d+ running$")
+
+
+def fancy_monitor(run, line, meta, res):
+    """the property on the implementation's own frames: no panic under the protocol, bar 40 wide, task lines within the width and
+    cut at character boundaries, cursor-up count = lines painted, between min(8, shown) and 16 task lines"""
+    where = {"suite": "fancy", "case": line, "result": res[:300]}
+    if not res.startswith("ok "):
+        if meta["malformed"]:
+            return                                   # outside the protocol the code is allowed to panic (C20_protocol_is_needed)
+        run.report_failure(None, "the display state panicked although its callers' protocol was respected: %s" % res[:160], where)
+        return
+    frames = res.split("frames=")[1].split(" ")[0]
+    frames = [unhexs(f) for f in frames.split(",")] if frames else []
+    prints = meta["prints"] + ([{"cols": None, "shown": None}] if meta["malformed"] and len(frames) > len(meta["prints"]) else [])
+    if len(frames) != len(prints):
+        run.report_failure(None, "%d frames for %d print_progress calls" % (len(frames), len(prints)), where)
+        return
+    for fr, pr in zip(frames, prints):
+        if pr["cols"] is None:
+            continue
+        m = re.search(rb"\x1b\[(\d+)A$", fr)
+        if not m:
+            run.report_failure(None, "frame does not end in a cursor-up sequence", where)
+            return
+        n = int(m.group(1))
+        body = fr[:m.start()]
+        if not body.endswith(b"\n"):
+            run.report_failure(None, "frame text does not end in a newline before the cursor-up", where)
+            return
+        lines = body[:-1].split(b"\n")[-n:]
+        if len(lines) != n or not STATUS_RE.search(lines[0]):
+            run.report_failure(None, "cursor-up by %d does not lead back to the status line: %r" % (n, lines[0][:80] if lines else b""), where)
+            return
+        bar = STATUS_RE.search(lines[0]).group(1)      # (the line may start with pending text: '\\r\\x1b[J', a logged message without newline)
+        if len(bar) != 40:
+            run.report_failure(None, "the bar is %d wide, not 40" % len(bar), where)
+        tl = lines[1:]
+        if pr["shown"] > 8:
+            if not tl or not re.match(rb"^\.\.\.and %d more$" % (pr["shown"] - 8), tl[-1]):
+                run.report_failure(None, "%d commands on display but no '...and %d more' line" % (pr["shown"], pr["shown"] - 8), where)
+                return
+            tl = tl[:-1]
+        if not (min(8, pr["shown"]) <= len(tl) <= 16):
+            run.report_failure(None, "%d task lines for %d commands on display" % (len(tl), pr["shown"]), where)
+        for l in tl:
+            if len(l) > pr["cols"]:
+                run.report_failure(None, "a task line of %d bytes on a %d-column terminal: %r" % (len(l), pr["cols"], l[:60]), where)
+                break
+            if meta["valid_text"] and not utf8_ok(l):
+                run.report_failure(None, "a task line was cut inside a character: %r" % l[-12:], where)
+                break
+
+
+def fancy_leg(run, rng, tier, har, drv, replay=None):
+    n = 1500 if tier == "quick" else 15000
+    cases = [gen_fancy(rng, malformed=(i % 10 == 9)) for i in range(n)]
+    if replay:
+        cases = [(replay["case"], replay.get("meta", {"valid_text": False, "prints": [], "malformed": True}))]
+    lines = [c[0] for c in cases]
+    PAN = {"panic 31": ["subtract with overflow"], "panic 32": ["progress.rs", "called `Option::unwrap()`"],
+           "panic 33": ["progress_fancy.rs", "called `Option::unwrap()`"], "panic 34": ["progress_fancy.rs", "called `Option::unwrap()`"]}
+    impl, model, bad = differential(run, "FancyState / print_progress", har, drv, "fancy", "fancy", lines, PAN)
+    for (l, meta), r in zip(cases, impl):
+        if not replay:
+            fancy_monitor(run, l, meta, r)
+    # String::from_utf8_lossy against Fancy.lossy and against python's decoder (an independent third opinion)
+    depth = 3 if tier == "quick" else 4
+    ls = [bytes(t) for k in range(depth + 1) for t in itertools.product(LOSSY_ALPHA, repeat=k)]
+    for _ in range(3000 if tier == "quick" else 30000):
+        ls.append(b"".join(rng.choice(RAW_PIECES + [bytes([rng.choice(LOSSY_ALPHA)])]) for _ in range(rng.randint(1, 10))))
+    li, lm, lbad = differential(run, "String::from_utf8_lossy", har, drv, "lossy", "lossy", [hexs(c) for c in ls])
+    for c, r in zip(ls, li):
+        want = c.decode("utf-8", "replace").encode()
+        if r != "ok " + hexs(want):
+            run.report_failure(None, "from_utf8_lossy(%r) = %s, expected %r" % (c, r[:80], want), {"suite": "lossy", "case": hexs(c)})
+            break
+    ops = sum(l.count(";") + 1 for l in lines)
+    return {"fancy_scenarios": len(lines), "fancy_operations": ops, "fancy_frames": sum(len(m["prints"]) for _, m in cases),
+            "fancy_frames_more_than_8": sum(1 for _, m in cases for p in m["prints"] if p["shown"] > 8),
+            "fancy_malformed": sum(1 for _, m in cases if m["malformed"]), "fancy_disagreements": len(bad),
+            "fancy_panics_impl": sum(1 for r in impl if not r.startswith("ok ")),
+            "lossy_cases": len(ls), "lossy_disagreements": len(lbad)}
+
+
 def main(tier, seed, replay=None):
     run = Run(PROP, tier, seed, "proof")
     rng = random.Random(seed)
-    info, problems = proof_gate_multi([PROP, "C20Shape"], thorough=(tier == "thorough"))
+    info, problems = proof_gate_multi([PROP, "C20Shape", "C20Frame"], thorough=(tier == "thorough"))
     for p in problems:
         run.tie("proof gate", p)
     drv = build_driver()
@@ -282,6 +431,9 @@ def main(tier, seed, replay=None):
                     run.report_failure(None, "find_last_line(%r) = %r, expected the last non-empty line %r" % (c[:60], got[:60], want[:60]), {"input_hex": hexs(c)})
         stats["last_line_cases"] = len(ll)
         stats["last_line_disagreements"] = len(bad_)
+    rp_f = json.load(open(replay))["replay"] if replay else None
+    if not replay or rp_f.get("suite") in ("fancy",):
+        stats.update(fancy_leg(run, rng, tier, har, drv, rp_f))
     npty = (pty_leg(run, tier) + pty_resize_leg(run)) if not replay else 0
     stats["pty_runs"] = npty
     run.coverage.update(info)
@@ -295,12 +447,13 @@ def main(tier, seed, replay=None):
                 "non-trivial = distinct case in which the text was actually cut" % (maxchars, n_exh, bound),
         "exhaustive": True,
         "suites": stats,
-        "model_vs_impl_disagreements": len(bad1) + len(bad2) + len(bad3),
+        "model_vs_impl_disagreements": len(bad1) + len(bad2) + len(bad3) + stats.get("fancy_disagreements", 0) + stats.get("lossy_disagreements", 0),
         "vm_compute_subsample": nvm,
         "samples": [{"case": tm_lines[i], "impl": tm_impl[i]} for i in rng.sample(range(len(tm_lines)), 4)]
                    + [{"case": bar_lines[i], "impl": bar_impl[i]} for i in rng.sample(range(len(bar_lines)), 2)],
     })
     run.assumptions += ["theorems are about Model/Render.v; tie to progress_fancy.rs = differential check through cfg-gated wrappers",
+                        "FancyState and print_progress are modelled (Model/Fancy.v) and compared through a cfg-gated driver that replaces clock, width and stdout; the debounce thread, the mutex and the terminal ioctl are not",
                         "isolation of a rendering panic from the build (display thread, mutex poisoning) is a run-time fact outside the model",
                         "terminal width >= 10 is enforced by terminal::get_cols (not modelled)"]
     return run.finish()
